@@ -71,6 +71,20 @@ def w_models(build):
             return err(Enum('ark_std::io::error::Error', 'UnexpectedEof', []))
         I.store(dst, rd.data[rd.pos:rd.pos + n]); rd.pos += n
         return ok(UNIT)
+    def m_read(I, fr, fn, a):
+        # Read::read of a slice / cursor reader: copies min(buffer length, bytes left) bytes and returns that number
+        rd = a[0]
+        while isinstance(rd, Ref): rd = I.deref(rd)
+        if not isinstance(rd, Reader): raise Unsupported(f'reader {rd!r}')
+        dst = a[1]; n = dst.len if isinstance(dst, SliceRef) else len(I.deref(dst))
+        k = min(n, len(rd.data) - rd.pos)
+        if k:
+            if isinstance(dst, SliceRef): I.store(SliceRef(dst.base, dst.start, k), rd.data[rd.pos:rd.pos + k])
+            else:
+                arr = I.deref(dst)
+                for i in range(k): arr[i] = rd.data[rd.pos + i]
+        rd.pos += k
+        return ok(k)
     def m_ser_compressed_default(I, fr, fn, a):
         m = re.match(r'^<(.*) as ark_serialize::CanonicalSerialize>::serialize_compressed::<.*>$', fn)
         return I.call(fr, f'<{m.group(1)} as ark_serialize::CanonicalSerialize>::serialize_with_mode::<W>', [a[0], a[1], Enum('ark_serialize', 'Compress::Yes', [])])
@@ -97,6 +111,7 @@ def w_models(build):
         (r'^<.* as ark_serialize::CanonicalDeserialize>::deserialize_compressed::<.*>$', m_deser_compressed_default),
         (r' as (ark_std::io|std::io|ark_serialize)::Write>::write_all$', m_write_all),
         (r' as (ark_std::io|std::io|ark_serialize)::Read>::read_exact$', m_read_exact),
+        (r' as (ark_std::io|std::io|ark_serialize)::Read>::read$', m_read),
         (r'^<ark_serialize::SerializationError as core::convert::From<ark_std::io::error::Error>>::from$', m_ser_err_from_io),
         (r'^hex::encode::', m_hex_encode),
     ]
@@ -291,6 +306,28 @@ def check_decode_funnel(build, max_len=80):
                 if problem:
                     bad += 1
                     obs.append(Ob(name, 'violated', problem, 0, 'mirsym/EUF', {'path': [str(c) for c in r['path']]}, {'kind': 'funnel', 'len': L, 'where': f'{it.impl_at[0]}:{it.impl_at[1]}', 'header': hdr}))
+        if kind == 'reader' and not (out_ty.startswith('core::result::Result<') and 'Encoding,' in out_ty.replace('encoding::Encoding', 'Encoding')):
+            # the other (Compress, Validate) modes: they may refuse (panic / Err) but must never hand out a point that did not come out of the decoder
+            for cm, vm in (('Compress::No', 'Validate::Yes'), ('Compress::Yes', 'Validate::No'), ('Compress::No', 'Validate::No')):
+                for L in (32, 64, 65):
+                    bs = [z3.BitVec(f'b{i}', 8) for i in range(L)]
+                    def body2(I, h, it=it, bs=bs, cm=cm, vm=vm):
+                        rd = Reader(bs); h.locals['rd'] = rd
+                        return I.call_item(it, [rd, Enum('ark_serialize', cm, []), Enum('ark_serialize', vm, [])]), I.ctx.__dict__.get('decode_calls', [])
+                    name = f'{build}:{it.impl_at[0]}:{it.impl_at[1]} `{hdr}`::deserialize_with_mode({cm}, {vm}) len={L}'
+                    try: recs2 = run_paths(items, M, body2)
+                    except Exception as e:
+                        # code the domain cannot follow in these modes (e.g. raw coordinate parsing): a point that bypasses the decoder
+                        obs.append(Ob(name, 'violated', f'builds its result without the decoder ({type(e).__name__}: {str(e)[:160]})', 0, 'mirsym/EUF', None, {'kind': 'funnel', 'len': L, 'mode': f'{cm},{vm}', 'where': f'{it.impl_at[0]}:{it.impl_at[1]}', 'header': hdr})); bad += 1; continue
+                    for r in recs2:
+                        npaths += 1
+                        if 'panic' in r or 'pruned' in r: continue
+                        res, calls = r['result']
+                        if res.variant == 'Ok':
+                            problem = funnel_verdict(build, res, calls, bs[:32], r, 'InvalidData')
+                            if problem:
+                                bad += 1
+                                obs.append(Ob(name, 'violated', problem, 0, 'mirsym/EUF', None, {'kind': 'funnel', 'len': L, 'mode': f'{cm},{vm}', 'where': f'{it.impl_at[0]}:{it.impl_at[1]}', 'header': hdr}))
         if not bad:
             obs.append(Ob(f'{build}:{it.impl_at[0]}:{it.impl_at[1]} `{hdr}`::{it.name.split("::")[-1]} lengths {Ls[0]}..={Ls[-1]}', 'proved',
                           f'{npaths} paths: length verdicts and funnel into vartime_decompress(bytes[..32]) with identical verdict/element', time.time() - t0, 'mirsym path enumeration + z3 EUF', {'lengths': len(Ls), 'paths': npaths}))
